@@ -1138,7 +1138,12 @@ def run(tier, seed, replay=None):
         "rule": "regression cases of corpus/C15 first; then graphs from pipe.gen_graph (1-4 classes, 2-6 nodes, multi-typed "
                 "nodes, links between instances; some nodes renamed to urn: / mailto: IRIs) with IRI nodes and plain, typed "
                 "(integer, float, date, custom datatype; well- and ill-formed lexical forms, numeric- and IRI-looking "
-                "strings) and language-tagged literals (4 of 5 cases) or also with blank nodes (1 of 5) x {target_classes, "
+                "strings) and language-tagged literals (4 of 5 cases) or also with blank nodes (1 of 5); planted (own random "
+                "stream, counted under distribution.planted_*): several literals of one (subject, predicate) that differ only "
+                "in their language tag and / or only after an embedded double quote (22 %), an instantiation property other "
+                "than rdf:type, some rdf:type statements kept (22 %), class / predicate / node IRIs and instantiation "
+                "properties holding the keyword 'SPARQL', also where the name without it is another class (20 %) "
+                "x {target_classes, "
                 "all_classes_mode, shape map of node / FOCUS selectors} round-robin x inverse_paths x 2^6 inference switches "
                 "x limit_remote_instances / instances_cap in 1..3 (36 %) and instances_cap = 0 (5 %) x answers in document "
                 "order or shuffled (every other case) x cache on and off (both, every case); distinct = distinct (graph, "
@@ -1148,6 +1153,7 @@ def run(tier, seed, replay=None):
         "outcome_distribution": dict(outcomes),
         "queries_cache_vs_nocache_total": [sum(a for a, _ in qsaved), sum(b for _, b in qsaved)],
         "known_finding_hits": dict(known_hits),
+        "tree_flags": tree_flags(),
         "corpus_cases_replayed_first": len([c for c in cases if c.get("corpus")]),
         "corpus_cases_failing": sorted({cases[k]["corpus"] for k in spec_fail if cases[k].get("corpus")}),
         "disagreements_model_vs_impl": len(corr_fail),
